@@ -115,8 +115,9 @@ Section LayerX.
   Variable prime : request -> request.                      (* Primes that rewrite the request URI *)
   Variable override : request -> option (bytes * option bytes).   (* Primes that answer "/./..." *)
   Variable negotiate : request -> fatx -> option (N * bytes).
-  Variable vary_tuple : request -> tuple.
-  Variable vary_header : request -> fatx -> list (bytes * bytes).
+  (** the transformed vary tuple / the vary header; [ov]: the rules are those of the URI the response is cached under *)
+  Variable vary_tuple : request -> option (bytes * option bytes) -> tuple.
+  Variable vary_header : request -> option (bytes * option bytes) -> fatx -> list (bytes * bytes).
   Variable clear_alias : request -> option request.         (* [uri_redirect_target] of a cleared URI *)
 
   (** the URI that is looked up: the override if there is one *)
@@ -128,17 +129,17 @@ Section LayerX.
 
   (** [clone_preferred] (never for a stream: [compress] is forced to None) + [vary::apply_header].
       [miss_arm]: before the repair only the miss arm skipped the vary header of a stream without length. *)
-  Definition finishX (r : request) (x : fatx) (lm cached miss_arm : bool) : replyx :=
+  Definition finishX (r : request) (ov : option (bytes * option bytes)) (x : fatx) (lm cached miss_arm : bool) : replyx :=
     match (if is_stream x then None else negotiate r x) with
     | Some (st, body) =>
-        {| rx_status := st; rx_headers := vary_header r (plain (mkFat st [] body SP_NONE false));
+        {| rx_status := st; rx_headers := vary_header r ov (plain (mkFat st [] body SP_NONE false));
            rx_pad := 0; rx_body := body; rx_ipad := fx_pad x; rx_identity := f_body (fx_fat x);
            rx_last_modified := lm; rx_from_cache := cached; rx_stream := None |}
     | None =>
         {| rx_status := f_status (fx_fat x);
            rx_headers := f_headers (fx_fat x) ++
                          (if (miss_arm || fix_svary) && match fx_stream x with Some None => true | _ => false end then []
-                          else vary_header r x);
+                          else vary_header r ov x);
            rx_pad := fx_pad x; rx_body := f_body (fx_fat x); rx_ipad := fx_pad x; rx_identity := f_body (fx_fat x);
            rx_last_modified := lm; rx_from_cache := cached; rx_stream := fx_stream x |}
     end.
@@ -152,25 +153,25 @@ Section LayerX.
     let '(x, hs', lg) := compute hs r ov ok in
     let lm := ims_on && wants_cache_x cache_on sfilter (rq_method r) x in
     if may_store_x cache_on sfilter (rq_method r) x then
-      let e' := {| ex_vars := [mkVar (vary_tuple r) x now]; ex_created := now; ex_life := lifetime_x x |} in
-      ((xc_insert (insert_key (if fix_ovkey then lookup_req r ov else r) (fx_fat x)) e' c1, hs'), finishX r x lm false true, lg)
-    else ((c1, hs'), finishX r x lm false true, lg).
+      let e' := {| ex_vars := [mkVar (vary_tuple r ov) x now]; ex_created := now; ex_life := lifetime_x x |} in
+      ((xc_insert (insert_key (if fix_ovkey then lookup_req r ov else r) (fx_fat x)) e' c1, hs'), finishX r ov x lm false true, lg)
+    else ((c1, hs'), finishX r ov x lm false true, lg).
 
   (** [handle_vary_missing]: compute; if the new variant is admitted (always, before the repair) push it and
       re-insert the entry with the remaining lifetime (after the repair: capped by the variant's own) *)
   Definition vary_missingX (c1 : cachex) (hs : hstate) (now : N) (r : request) (ov : option (bytes * option bytes))
              (ok : bool) (k : key) (e : entryx) : statex * replyx * list bytes :=
     let '(x, hs', lg) := compute hs r ov ok in
-    let rp := finishX r x ims_on true false in
+    let rp := finishX r ov x ims_on true false in
     let remaining := option_map (fun l => l - (now - ex_created e)) (ex_life e) in
     if fix_vary then
       if may_store_x cache_on sfilter (rq_method r) x then
-        let e' := {| ex_vars := mkVar (vary_tuple r) x now :: ex_vars e; ex_created := now;
+        let e' := {| ex_vars := mkVar (vary_tuple r ov) x now :: ex_vars e; ex_created := now;
                      ex_life := min_life remaining (lifetime_x x) |} in
         ((xc_insert k e' c1, hs'), rp, lg)
       else ((c1, hs'), rp, lg)
     else
-      let e' := {| ex_vars := mkVar (vary_tuple r) x now :: ex_vars e; ex_created := now; ex_life := remaining |} in
+      let e' := {| ex_vars := mkVar (vary_tuple r ov) x now :: ex_vars e; ex_created := now; ex_life := remaining |} in
       ((xc_insert k e' c1, hs'), rp, lg).
 
   (** [handle_cache] for one request at time [now] (ms). *)
@@ -181,7 +182,7 @@ Section LayerX.
     let ov := override r0 in
     if negb cache_on then
       let '(x, hs', lg) := compute hs r ov ok in
-      ((c, hs'), finishX r x false false true, lg)
+      ((c, hs'), finishX r ov x false false true, lg)
     else
     let '((k, found), c1) := xlookup (lookup_req r ov) c now in
     match found with
@@ -195,8 +196,8 @@ Section LayerX.
              {| rx_status := 304; rx_headers := []; rx_pad := 0; rx_body := []; rx_ipad := 0; rx_identity := [];
                 rx_last_modified := ims_on; rx_from_cache := true; rx_stream := None |}, [])
           else
-            match xv_find (vary_tuple r) (ex_vars e) with
-            | Some v => ((c1, hs), finishX r (v_resp v) ims_on true false, [])
+            match xv_find (vary_tuple r ov) (ex_vars e) with
+            | Some v => ((c1, hs), finishX r ov (v_resp v) ims_on true false, [])
             | None => vary_missingX c1 hs now r ov ok k e
             end
         else
@@ -306,7 +307,8 @@ Definition cors_fail_fat : fat :=
 
 Definition compute_x (default_ext : bool) (handlers : list hspec) (xhandlers : list xhandler) (hs : list N) (r : request)
            (ov : option (bytes * option bytes)) (ok : bool) : fatx * list N * list bytes :=
-  if negb ok then (plain (error_fat (if range_part_ok r then 400 else 416) SP_NONE), hs, [])
+  (* sanitize_request tests the path first (UnsafePath -> 400), then the range (RangeNotSatisfiable -> 416) *)
+  if negb ok then (plain (error_fat (if negb (path_part_ok (rq_path r)) then 400 else 416) SP_NONE), hs, [])
   else
     let p := match ov with Some (p, _) => p | None => rq_path r end in
     if default_ext && beq p CORS_FAIL then (plain cors_fail_fat, hs, []) else
@@ -331,7 +333,13 @@ Definition compute_x (default_ext : bool) (handlers : list hspec) (xhandlers : l
     end.
 
 (** [vary::apply_header]: nothing on an empty body; a streamed response does not vary on range *)
-Definition vary_header_x (rules : list (bytes * list vrule)) (r : request) (x : fatx) : list (bytes * bytes) :=
+(** the request whose path selects the vary rules: after the repair the URI the response is cached under *)
+Definition vary_req (fix_ovkey : bool) (r : request) (ov : option (bytes * option bytes)) : request :=
+  if fix_ovkey then match ov with Some (p, q) => mkReq (rq_method r) p q (rq_headers r) (rq_addr r) | None => r end else r.
+Definition vary_tuple_x (fix_ovkey : bool) (rules : list (bytes * list vrule)) (r : request) (ov : option (bytes * option bytes)) : tuple :=
+  vary_tuple_fix rules (vary_req fix_ovkey r ov).
+Definition vary_header_x (fix_ovkey : bool) (rules : list (bytes * list vrule)) (r0 : request) (ov : option (bytes * option bytes)) (x : fatx) : list (bytes * bytes) :=
+  let r := vary_req fix_ovkey r0 ov in
   if fx_len x =? 0 then []
   else
     let no_range := is_stream x && negb (match assoc (B "vary") (f_headers (fx_fat x)) with
@@ -444,7 +452,7 @@ Definition run_cfgx (cache_on : bool) (cx : configx) (ops : list opx) : list obs
        (if cf_default_ext cfg then uri_redirect else (fun r => r))
        (override_x (cf_default_ext cfg) (cx_ovprime cx))
        (fun _ _ => None)
-       (vary_tuple_fix (cf_vary cfg)) (vary_header_x (cf_vary cfg)) clear_alias_fix
+       (vary_tuple_x (cx_fix_ovkey cx) (cf_vary cfg)) (vary_header_x (cx_fix_ovkey cx) (cf_vary cfg)) clear_alias_fix
        ([], repeat 0 (length (cf_handlers cfg) + 8)) (cf_phase cfg) ops.
 
 Definition run_cfgx_state (cache_on : bool) (cx : configx) (ops : list opx) : (cachex * list N) * N :=
@@ -455,7 +463,7 @@ Definition run_cfgx_state (cache_on : bool) (cx : configx) (ops : list opx) : (c
        (if cf_default_ext cfg then uri_redirect else (fun r => r))
        (override_x (cf_default_ext cfg) (cx_ovprime cx))
        (fun _ _ => None)
-       (vary_tuple_fix (cf_vary cfg)) (vary_header_x (cf_vary cfg)) clear_alias_fix
+       (vary_tuple_x (cx_fix_ovkey cx) (cf_vary cfg)) (vary_header_x (cx_fix_ovkey cx) (cf_vary cfg)) clear_alias_fix
        ([], repeat 0 (length (cf_handlers cfg) + 8)) (cf_phase cfg) ops.
 
 Definition run_pipex (x : xval) : xval :=
